@@ -13,8 +13,8 @@ RULE = ("one case = (method, direction, dense flag, event mix incl. simultaneous
         "direction; non-trivial = >=1 reported event; distinct by (method,direction,dense,event mix,seed)")
 ASSUMPTIONS = ["true roots with |dg/dt| below 5% of the function's scale (tangential) and pairs of true roots closer than the location tolerance are excluded",
                "root location tolerance in t: K*(dy*|s||grad h|/|dg/dt| + max(4eps(1+|t|), ulp(t))) with dy = node error + h^4 max|y''''|/384, K=10"]
-FLOORS = {"quick": {"events_checked": 150, "events_backward": 50, "events_nodense": 50, "steps_with_two_events": 3, "boundary_root_events": 6, "events_on_small_steps": 12, "events_on_tiny_steps": 4, "boundary_root_events_sharing_a_step": 30, "multileg_legs": 40, "multileg_events": 40, "events_on_a_call_boundary": 15},
-          "thorough": {"events_checked": 1500, "events_backward": 500, "events_nodense": 500, "steps_with_two_events": 30, "boundary_root_events": 60, "events_on_small_steps": 150, "events_on_tiny_steps": 20, "boundary_root_events_sharing_a_step": 150, "multileg_legs": 200, "multileg_events": 200, "events_on_a_call_boundary": 100}}
+FLOORS = {"quick": {"events_checked": 150, "events_backward": 50, "events_nodense": 50, "steps_with_two_events": 3, "boundary_root_events": 6, "events_on_small_steps": 12, "events_on_tiny_steps": 4, "boundary_root_events_sharing_a_step": 30, "multileg_legs": 40, "multileg_events": 40, "events_on_a_call_boundary": 15, "events_of_extreme_scale": 20},
+          "thorough": {"events_checked": 1500, "events_backward": 500, "events_nodense": 500, "steps_with_two_events": 30, "boundary_root_events": 60, "events_on_small_steps": 150, "events_on_tiny_steps": 20, "boundary_root_events_sharing_a_step": 150, "multileg_legs": 200, "multileg_events": 200, "events_on_a_call_boundary": 100, "events_of_extreme_scale": 100}}
 QUICK_METHODS = ["RK45CKSolver", "DOPRI45", "RK4Solver", "EulerSolver", "RK8713MSolver", "ABAs5o6HSolver", "SymplecticEulerSolver",
                  "BackwardEuler", "RadauIIA5", "GaussLegendre4", "MidpointSolver", "RK108Solver"]
 CASE_TIMEOUT = 900
@@ -40,6 +40,14 @@ def gen_cases(tier, seed):
                     cases.append(dict(kind="random", method=name, direction=d, dense=dense, t0=t0, tf=t0 + d * L, dtype=dtn,
                                       nsteps=float(rng.uniform(25, 60)) * (12 if info["order"] <= 2 and not info["adaptive"] else 1),
                                       nev=nev, pseed=int(rng.integers(1 << 30)), cost=(2 if info["explicit"] else 14) * (1 + nev / 3.0)))
+    # event functions of extreme magnitude (down to 1e-30, up to 1e12): every absolute threshold in the detection pipeline is meaningless there
+    for name in (["RK45CKSolver", "RK4Solver", "RK8713MSolver", "RadauIIA5"] if tier == "quick" else names):
+        for d in (1, -1):
+            for sd in ((-30, -12), (6, 12)):
+                L = float(rng.uniform(3.0, 6.0))
+                t0 = float(rng.uniform(-4, 4))
+                cases.append(dict(kind="random", method=name, direction=d, dense=bool(rng.random() < 0.5), t0=t0, tf=t0 + d * L, nsteps=float(rng.uniform(25, 60)),
+                                  nev=3, scale_decades=list(sd), pseed=int(rng.integers(1 << 30)), cost=(4 if M[name]["explicit"] else 28)))
     # derivative-dependent events on SMALL steps: the slope of the step interpolant carries rounding noise ~eps|y|/h, which is what the
     # direction classification has to cope with; pairs of functions on one surface with opposite signs, one-sided directions
     # (fixed-step methods keep the requested step; HeunEuler at rtol 1e-6 settles near 7e-4 by itself)
@@ -219,7 +227,8 @@ def run_case(spec):
         evspecs = [e1, e2]
     else:
         for _ in range(spec["nev"]):
-            evspecs.append(random_event_spec(rng, prob, t0, tf, dim, terminal=False, kinds=["component", "linear", "time", "norm2", "dstate"]))
+            evspecs.append(random_event_spec(rng, prob, t0, tf, dim, terminal=False, kinds=["component", "linear", "time", "norm2", "dstate"],
+                                             scale_decades=tuple(spec.get("scale_decades", (-6, 6)))))
         if spec["nev"] >= 2 and rng.random() < 0.6:
             # two different functions crossing at (nearly) the same time: both share a step
             e2 = dict(evspecs[0])
@@ -254,6 +263,8 @@ def run_case(spec):
     rec.nontrivial = len(evs) > 0
     if spec.get("dtype", "float64") != "float64":
         rec.bump("events_in_" + spec["dtype"], len(evs))
+    if spec.get("scale_decades"):
+        rec.bump("events_of_extreme_scale", len(evs))
     idx_of = {id(e): j for j, e in enumerate(events)}
     # ---- node / interpolation error of the run (what the located roots can inherit)
     node = max(float(np.max(np.abs(y[k].astype(np.longdouble) - prob.ystar(float(t[k]))))) for k in range(len(t)))
